@@ -176,6 +176,9 @@ def gen_case(rng, idx, mode):
         return "vars %d %s" % (len(vs), " ".join(map(str, vs)))
 
     def enable_line(first):
+        if not first and r.random() < 0.3:
+            # one switch alone
+            return "%s %d" % (r.choice(["en1", "en2", "enx"]), r.randint(0, 1))
         if r.random() < 0.35:
             # every combination of the three switches, uniformly
             return "enable %d %d %d" % (r.randint(0, 1), r.randint(0, 1), r.randint(0, 1))
@@ -321,6 +324,14 @@ def generate(seed, tier):
     return cases
 
 
+def rs_flags(answer):
+    """the r=abc field of an answer to a switch operation"""
+    for tok in answer.split():
+        if tok.startswith("r=") and len(tok) == 5:
+            return tok[2:]
+    return None
+
+
 def coverage_extra(cases, answers):
     """distribution of what was generated / what the implementation did"""
     st = {"mode": {}, "scheme": {}, "kind": {}, "status": {}, "entry_op": {}, "other_op": {}, "enable_combination": {},
@@ -361,6 +372,9 @@ def coverage_extra(cases, answers):
             if t[0] == "enable":
                 cross = t[3] == "1"
             if t[0] in ("interval", "fnenable", "copy", "assign", "fnset", "get", "vars"):
+                st["other_op"][t[0]] = st["other_op"].get(t[0], 0) + 1
+            if t[0] in ("en1", "en2", "enx"):
+                cross = rs_flags(r)[2] == "1" if rs_flags(r) else cross
                 st["other_op"][t[0]] = st["other_op"].get(t[0], 0) + 1
             if t[0] == "enable":
                 k = "".join(t[1:4])
